@@ -48,14 +48,62 @@ func bpairsOut(m map[string][]byte) string {
 	return listOut(xs)
 }
 
+// cfgCanon: order-insensitive reading of a configuration file (Config.Write emits sections and keys in Go's map
+// order): lines grouped into blocks, each opened by a line starting with '['; lines sorted within a block, blocks
+// sorted; the model driver computes the same function of the raw bytes
 func cfgCanon(b []byte, has bool) string {
 	if !has {
 		return "none"
 	}
-	if !configLoads(b) {
-		return "unloadable"
+	type block struct {
+		h  string
+		ls []string
 	}
-	return cfgMapOut(parseConfigFile(b))
+	var blocks []*block
+	for _, l := range strings.Split(string(b), "\n") {
+		if l == "" {
+			continue
+		}
+		if strings.HasPrefix(l, "[") {
+			blocks = append(blocks, &block{h: l})
+		} else {
+			if len(blocks) == 0 {
+				blocks = append(blocks, &block{})
+			}
+			blocks[len(blocks)-1].ls = append(blocks[len(blocks)-1].ls, l)
+		}
+	}
+	var xs []string
+	for _, bl := range blocks {
+		sort.Strings(bl.ls)
+		var hs []string
+		for _, l := range bl.ls {
+			hs = append(hs, hexOut([]byte(l)))
+		}
+		xs = append(xs, hexOut([]byte(bl.h))+"="+strings.Join(hs, "+"))
+	}
+	// sort blocks by header, then by their sorted lines (compare the decoded values, not the hex text)
+	idx := make([]int, len(blocks))
+	for i := range idx {
+		idx[i] = i
+	}
+	sort.SliceStable(idx, func(i, j int) bool {
+		a, c := blocks[idx[i]], blocks[idx[j]]
+		if a.h != c.h {
+			return a.h < c.h
+		}
+		for k := 0; k < len(a.ls) && k < len(c.ls); k++ {
+			if a.ls[k] != c.ls[k] {
+				return a.ls[k] < c.ls[k]
+			}
+		}
+		return len(a.ls) < len(c.ls)
+	})
+	var out []string
+	for _, i := range idx {
+		out = append(out, xs[i])
+	}
+	return listOut(out)
 }
 
 func squash(v string) string {
@@ -117,6 +165,18 @@ func worldOK(o *Obs) bool {
 	}
 	if o.HasIndex && !bytes.Equal(o.IndexRaw, encodeIndex(o.Index)) {
 		return false
+	}
+	// Go's strings.TrimSpace also trims Unicode white space (U+0085, U+00A0, U+2000…); the model's is ASCII only:
+	// a configuration file holding such a character (only damage produces one) is outside the modelled domain
+	for _, c := range [][]byte{o.CfgLocal, o.CfgGlobal} {
+		for _, sp := range []string{"\u0085", "\u00a0", "\u1680", "\u2028", "\u2029", "\u202f", "\u205f", "\u3000"} {
+			if bytes.Contains(c, []byte(sp)) {
+				return false
+			}
+		}
+		if bytes.Contains(c, []byte{0xe2, 0x80}) {
+			return false
+		}
 	}
 	return total <= 300000
 }
